@@ -75,12 +75,24 @@ def replay_conc(run, cases, prefixes, shards=8):
             run.cov["transitions"] += tv.generated
         for f in fails:
             c = by_id[f["tr"]]
+            steps = ["%s%s.%s" % (h["p"], h["id"], h["a"]) for h in c["hist"]]
+            lost = f.get("late") or []
+            per_reader = f.get("readers") or []
+            seen = set()
+            for ri, rp in enumerate(per_reader):
+                for p in rp:
+                    if not p.startswith(tuple(prefixes)):
+                        continue
+                    seen.add(p)
+                    cnt[p] += 1
+                    # cause: did this reader subscribe only after the notification for its header had fired?
+                    after = bool(lost[ri]) if ri < len(lost) else False
+                    run.violation({"family": "conc", "pred": p, "subscribed_after_notification": after},
+                                  "clause %s fails for reader %d after schedule %s (want=%s script=%s)" % (p, ri + 1, steps, c["want"], c["script"]))
             for p in f["preds"]:
-                if not p.startswith(tuple(prefixes)):
+                if p in seen or not p.startswith(tuple(prefixes)):
                     continue
                 cnt[p] += 1
-                steps = ["%s%s.%s" % (h["p"], h["id"], h["a"]) for h in c["hist"]]
-                # signature: was the waited-for header appended without extending the contiguous head (gapped append)?
                 run.violation({"family": "conc", "pred": p},
                               "clause %s fails after schedule %s (want=%s script=%s)" % (p, steps, c["want"], c["script"]))
     fold(run, results)
@@ -121,6 +133,7 @@ def c12(run):
     run.assumptions += ["sequential consistency of the atomics/locks at yield-point granularity",
                         "schedules are replayed with blocking verif hooks inside a testing/synctest bubble"]
     replay_conc(run, cases, ["C12_"])
+    explore(run, "c12", 4000 if quick else 200000, ["C12_"])
     if design_cex and not run.violations and not run.known_hits:
         raise vlib.Inconclusive("design-level counterexamples %s not reproduced on the code" % design_cex)
 
@@ -174,6 +187,78 @@ def stress(run, runs, procs=8):
     run.cov.setdefault("failed_clauses", {}).update(dict(cnt))
 
 
+def explore(run, mode, runs, prefixes, procs=8):
+    """seeded random walks over the code's own schedule space (verif yield points + datastore operations as gates),
+    judged by StoreConcTrace.tla without any model prediction"""
+    pid = run.pid
+    wd = vlib.workdir(pid)
+    binp = os.path.join(wd, "conch.test")
+    if not os.path.exists(binp):
+        vlib.go_build_test("conch", binp)
+    per = max(1, runs // procs)
+
+    def one(i):
+        tp, op = os.path.join(wd, "explore_%d.ndjson" % i), os.path.join(wd, "explore_out_%d.ndjson" % i)
+        for f in (tp, op):
+            if os.path.exists(f):
+                os.remove(f)
+        r = vlib.run_bin(binp, ["-test.run", "^TestExplore$", "-test.timeout", "3000s", "-test.count", "1"],
+                         env_extra={"VH_TRACE": tp, "VH_OUT": op, "VH_RUNS": per, "VH_IDBASE": 1000000 + i * per, "VH_MODE": mode,
+                                    "VERIF_SEED": vlib.seed(), "GOLOG_LOG_LEVEL": "error"}, timeout=3100)
+        if r.returncode != 0:
+            tail = r.stdout[-2500:] + r.stderr[-2500:]
+            if "panic:" in tail and ("go-header" in tail or "/repo/" in tail) and "synctest" not in tail.split("panic:")[1][:200]:
+                return None, [], tail
+            raise vlib.Inconclusive("explore driver failed:\n" + tail)
+        tv = vlib.tlc(pid, "tve_%d" % i, "StoreConcTrace", "StoreConcTrace.cfg", workers=1, env_extra={"TRACE": tp},
+                      export_key="FAIL", heap="2g")
+        if tv.error or not tv.ok:
+            raise vlib.Inconclusive("trace evaluation failed: %s" % ((tv.error or tv.stdout)[-2000:]))
+        cfgs = {}
+        for rec in vlib.read_ndjson(tp):
+            cfgs[rec["tr"]] = rec.get("cfg", "")
+        return (tv, cfgs), vlib.read_ndjson(op), None
+
+    with concurrent.futures.ThreadPoolExecutor(max_workers=procs) as ex:
+        outs = list(ex.map(one, range(procs)))
+    cnt = collections.Counter()
+    results = []
+    for tvc, recs, crash in outs:
+        if crash:
+            run.violation({"family": "conc", "symptom": "process_crash", "mode": "explore"}, "free schedule crashed inside go-header: " + crash[-1500:])
+            continue
+        tv, cfgs = tvc
+        for r in recs:
+            r["from_tlc"] = False
+        results.extend(recs)
+        run.cov["states"] += tv.distinct
+        run.cov["transitions"] += tv.generated
+        for f in tv.exported:
+            late = f.get("late") or []
+            seen = set()
+            for ri, rp in enumerate(f.get("readers") or []):
+                for p in rp:
+                    if not p.startswith(tuple(prefixes)):
+                        continue
+                    seen.add(p)
+                    cnt[p] += 1
+                    after = bool(late[ri]) if ri < len(late) else False
+                    run.violation({"family": "conc", "pred": p, "subscribed_after_notification": after, "mode": "explore"},
+                                  "clause %s fails for reader %d in free schedule %s (seed %s): %s" % (p, ri + 1, f["tr"], vlib.seed(), cfgs.get(f["tr"], "")))
+            for p in f["preds"]:
+                if p in seen or not p.startswith(tuple(prefixes)):
+                    continue
+                cnt[p] += 1
+                run.violation({"family": "conc", "pred": p, "mode": "explore"},
+                              "clause %s fails in free schedule %s (seed %s): %s" % (p, f["tr"], vlib.seed(), cfgs.get(f["tr"], "")))
+    fold(run, results)
+    run.cov["free_schedules"] = per * procs
+    fc = dict(run.cov.get("failed_clauses", {}))
+    for k2, v2 in cnt.items():
+        fc[k2] = fc.get(k2, 0) + v2
+    run.cov["failed_clauses"] = fc
+
+
 @register("C17")
 def c17(run):
     quick = run.tier == "quick"
@@ -198,5 +283,6 @@ def c17(run):
     run.assumptions += ["race detector reports are diagnostics (counted in coverage), not verdicts",
                         "stress runs use wall-clock real threads: their schedules are not reproducible, their seeds are"]
     replay_conc(run, cases, ["C17_"])
+    explore(run, "c17", 4000 if quick else 200000, ["C17_"])
     stress(run, 48 if quick else 1600)
     run.sample({"stress": "2..4 writers append interleaved chunks of a 40..160 header chain, 2 observers sample Head/Height and re-read the head, optional deleter prunes the tail"})
